@@ -2,10 +2,10 @@
 # Re-verify every seeded change on the CURRENT /repo HEAD and re-run its property's check against it.
 # Output: one line per change.  (Phase 1 in parallel, phase 2 serial because checks share /verif/_build.)
 V=${VERIF_DIR:-/verif}; cd $V
-ls -d seeded/C??-? seeded/C??-r2 seeded/C??-r3 seeded/C??-r4? | sed 's#seeded/##' | while read id; do p=${id%-*}; echo "$p $V/seeded/$id $id"; done \
+ls -d seeded/C??-? seeded/C??-r2 seeded/C??-r3 seeded/C??-r4? seeded/C??-r5? | sed 's#seeded/##' | while read id; do p=${id%-*}; echo "$p $V/seeded/$id $id"; done \
   | xargs -P 5 -L 1 tools/seed_verify.sh 2>&1 | grep -v WARNING | sort > _build/seed_campaign.verify.txt
 cat _build/seed_campaign.verify.txt
-for id in $(ls -d seeded/C??-? seeded/C??-r2 seeded/C??-r3 seeded/C??-r4? | sed 's#seeded/##'); do
+for id in $(ls -d seeded/C??-? seeded/C??-r2 seeded/C??-r3 seeded/C??-r4? seeded/C??-r5? | sed 's#seeded/##'); do
   tools/seed_check.sh $id ${id%-*} 2>&1 | grep -v WARNING | cut -c1-200
   git -C /repo worktree remove --force /tmp/st-$id 2>/dev/null
 done | tee _build/seed_campaign.check.txt
